@@ -45,6 +45,9 @@ type pki struct {
 	goodClient, selfClient, foreignClient tls.Certificate
 }
 
+// trustFile: what this process presents as the host's trust store (removed by TestMain).
+var trustFile string
+
 var (
 	pkiOnce sync.Once
 	thePKI  *pki
@@ -134,6 +137,14 @@ func getPKI() (*pki, error) {
 		if p.foreignClient, err = client("foreign client", 3003, fcaCert, fcaKey); err != nil {
 			pkiErr = err
 			return
+		}
+		// The host's trust store, as far as this process is concerned, is the foreign CA (Go reads SSL_CERT_FILE the
+		// first time the system pool is asked for): a certificate that chains to a public CA of the host is not one that
+		// chains to the CA the export is configured with. The harness' own clients name their roots explicitly.
+		trustFile = filepath.Join(os.TempDir(), fmt.Sprintf("verif-host-trust-%d.pem", os.Getpid()))
+		if err := os.WriteFile(trustFile, fcaPEM, 0600); err == nil {
+			os.Setenv("SSL_CERT_FILE", trustFile)
+			os.Setenv("SSL_CERT_DIR", filepath.Join(os.TempDir(), "verif-no-such-dir"))
 		}
 		p.caPEM = caPEM
 		p.fcaPEM = fcaPEM
